@@ -40,6 +40,10 @@ func init() {
 		"unicode/utf8.DecodeRuneInString":     inDecodeRune,
 		"unicode.ToUpper":                     inToUpper,
 
+		"github.com/mgutz/ansi.ColorCode": func(e *Exec, fn *ssa.Function, a []Value) Value {
+			return e.constString("\x1b[" + e.goString(a[0]) + "m")
+		},
+
 		"bytes.Equal":           func(e *Exec, fn *ssa.Function, a []Value) Value { return e.winEq(e.win(a[0]), e.win(a[1])) },
 		"bytes.HasPrefix":       func(e *Exec, fn *ssa.Function, a []Value) Value { return e.hasPrefix(e.win(a[0]), e.win(a[1])) },
 		"bytes.HasSuffix":       func(e *Exec, fn *ssa.Function, a []Value) Value { return e.hasSuffix(e.win(a[0]), e.win(a[1])) },
@@ -60,6 +64,9 @@ func init() {
 		"strings.Split":         inSplit,
 		"bytes.TrimSpace":       inTrimSpace,
 		"strings.TrimSpace":     inTrimSpace,
+
+		// the file system is an arbitrary oracle: any answer, per probe
+		repoStack + "isFile": func(e *Exec, fn *ssa.Function, a []Value) Value { return e.fresh("isFile", 0) },
 
 		repoStack + "unsafeString": func(e *Exec, fn *ssa.Function, a []Value) Value {
 			s := a[0].(*SliceV)
@@ -387,17 +394,202 @@ func inTrimSpace(e *Exec, fn *ssa.Function, a []Value) Value {
 func inSprintf(e *Exec, fn *ssa.Function, a []Value) Value {
 	format := e.goString(a[0])
 	var goArgs []interface{}
-	if sl, ok := a[1].(*SliceV); ok && !isNil(sl) {
-		off, n := e.sliceWindow(sl)
+	var raw []Value
+	allConc := true
+	var sl *SliceV
+	off, n := 0, 0
+	if s, ok := a[1].(*SliceV); ok && !isNil(s) {
+		sl = s
+		off, n = e.sliceWindow(sl)
 		for i := 0; i < n; i++ {
+			raw = append(raw, sl.Arr.Elems[off+i])
 			v, ok := e.fmtArg(sl.Arr.Elems[off+i])
 			if !ok {
-				return e.sprintfToken(format, sl, off, n)
+				allConc = false
 			}
 			goArgs = append(goArgs, v)
 		}
 	}
-	return e.constString(fmt.Sprintf(format, goArgs...))
+	if allConc {
+		return e.constString(fmt.Sprintf(format, goArgs...))
+	}
+	if r, ok := e.sprintfSym(format, raw); ok {
+		return r
+	}
+	return e.sprintfToken(format, sl, off, n)
+}
+
+// sprintfSym formats with symbolic string contents for the verb subset
+// %s %v %d %x %q-free, flags '-' and '0', widths as digits or '*': string
+// arguments have concrete lengths and symbolic bytes, integers are concrete, so
+// the layout (padding, positions) is computed exactly and only the bytes stay
+// symbolic. Arguments implementing String() are rendered through it.
+func (e *Exec) sprintfSym(format string, args []Value) (Value, bool) {
+	var out []*Term
+	lit := func(s string) {
+		for i := 0; i < len(s); i++ {
+			out = append(out, e.ctx.BV(uint64(s[i]), 8))
+		}
+	}
+	ai := 0
+	next := func() (Value, bool) {
+		if ai >= len(args) {
+			return nil, false
+		}
+		v := args[ai]
+		ai++
+		return v, true
+	}
+	intArg := func(v Value) (int64, bool) {
+		if iv, ok := v.(*IfaceV); ok && iv != nil {
+			v = iv.Val
+		}
+		t, ok := v.(*Term)
+		if !ok || !t.IsConst() {
+			return 0, false
+		}
+		return t.SVal(), true
+	}
+	for i := 0; i < len(format); i++ {
+		ch := format[i]
+		if ch != '%' {
+			out = append(out, e.ctx.BV(uint64(ch), 8))
+			continue
+		}
+		i++
+		if i >= len(format) {
+			return nil, false
+		}
+		if format[i] == '%' {
+			lit("%")
+			continue
+		}
+		left, zero := false, false
+		for i < len(format) && (format[i] == '-' || format[i] == '0') {
+			if format[i] == '-' {
+				left = true
+			} else {
+				zero = true
+			}
+			i++
+		}
+		width := -1
+		if i < len(format) && format[i] == '*' {
+			v, ok := next()
+			if !ok {
+				return nil, false
+			}
+			w, ok := intArg(v)
+			if !ok {
+				return nil, false
+			}
+			width = int(w)
+			if width < 0 {
+				left = true
+				width = -width
+			}
+			i++
+		} else {
+			for i < len(format) && format[i] >= '0' && format[i] <= '9' {
+				if width < 0 {
+					width = 0
+				}
+				width = width*10 + int(format[i]-'0')
+				i++
+			}
+		}
+		if i >= len(format) {
+			return nil, false
+		}
+		verb := format[i]
+		v, ok := next()
+		if !ok {
+			return nil, false
+		}
+		var body []*Term
+		switch verb {
+		case 'd', 'x':
+			n, ok := intArg(v)
+			if !ok {
+				return nil, false
+			}
+			var txt string
+			if iv, isI := v.(*IfaceV); isI && iv != nil && !isSigned(iv.Typ) {
+				if verb == 'd' {
+					txt = fmt.Sprintf("%d", uint64(n))
+				} else {
+					txt = fmt.Sprintf("%x", uint64(n))
+				}
+			} else if verb == 'd' {
+				txt = fmt.Sprintf("%d", n)
+			} else {
+				txt = fmt.Sprintf("%x", n)
+			}
+			for k := 0; k < len(txt); k++ {
+				body = append(body, e.ctx.BV(uint64(txt[k]), 8))
+			}
+			if zero && !left && width > len(body) {
+				pad := make([]*Term, width-len(body))
+				for k := range pad {
+					pad[k] = e.ctx.BV('0', 8)
+				}
+				body = append(pad, body...)
+			}
+		case 's', 'v':
+			sv, ok := e.stringOf(v)
+			if !ok {
+				return nil, false
+			}
+			body = e.strBytes(sv)
+		default:
+			return nil, false
+		}
+		// width counts runes; the model is exact for ASCII content only
+		if width > len(body) {
+			pad := make([]*Term, width-len(body))
+			for k := range pad {
+				pad[k] = e.ctx.BV(' ', 8)
+			}
+			if left {
+				body = append(body, pad...)
+			} else {
+				body = append(pad, body...)
+			}
+		}
+		out = append(out, body...)
+	}
+	if ai != len(args) {
+		return nil, false
+	}
+	return e.mkString(out), true
+}
+
+// stringOf renders a %s argument: strings, and values with a String() method.
+func (e *Exec) stringOf(v Value) (*StringV, bool) {
+	iv, _ := v.(*IfaceV)
+	if iv != nil {
+		if s, ok := iv.Val.(*StringV); ok {
+			if s.Tok != nil {
+				return nil, false
+			}
+			return s, true
+		}
+		ms := e.eng.prog.MethodSets.MethodSet(iv.Typ)
+		for i := 0; i < ms.Len(); i++ {
+			if ms.At(i).Obj().Name() == "String" {
+				r := e.callFunc(e.eng.prog.MethodValue(ms.At(i)), []Value{iv.Val}, nil)
+				if s, ok := r.(*StringV); ok && s.Tok == nil {
+					return s, true
+				}
+				return nil, false
+			}
+		}
+		return nil, false
+	}
+	if s, ok := v.(*StringV); ok && s.Tok == nil {
+		return s, true
+	}
+	return nil, false
 }
 
 // sprintfToken: formatting of symbolic arguments is an uninterpreted token
